@@ -242,6 +242,11 @@ def run_case(case, ctx):
                 # an unfolding that happens to be a symmetric (or skew, or Hermitian-looking) indefinite square matrix with a
                 # non-negative diagonal: a kernel / adjacency / Hessian-like table. Its SVD is not its eigendecomposition.
                 X, shp, order, cls = _structured_square(rs, dt)
+            if dt == "float64" and X.dtype.kind == "f" and svd == "truncated_svd" and rs.rand() < 0.15:
+                # complex data: the remainder carried from one SVD to the next is S V of a complex SVD
+                X = X.astype(np.complex128) + 1j * rs.standard_normal(shp) * (float(np.max(np.abs(X))) or 1.0)
+                cls = cls + "+complex"
+                ctx.count("tt_complex")
             Xh = ref.hp(X)
             eff_tensor = Xh
             eff = shp
@@ -304,6 +309,10 @@ def run_case(case, ctx):
     X = make_tensor(rs, shp, cls, dt, rescale=(svd != "symeig_svd"))
     if rs.rand() < 0.12 and X.dtype.kind == "f":
         X, shp, order, cls = _structured_square(rs, dt)
+    if dt == "float64" and X.dtype.kind == "f" and svd == "truncated_svd" and rs.rand() < 0.15:
+        X = X.astype(np.complex128) + 1j * rs.standard_normal(shp) * (float(np.max(np.abs(X))) or 1.0)
+        cls = cls + "+complex"
+        ctx.count("tr_complex")
     Xh = ref.hp(X)
     nx = ref.frob_sq(Xh)
     mode = int(rs.randint(order))
